@@ -24,6 +24,7 @@ func init() {
 	vh.Register("c05", "record", record)
 	vh.Register("c05", "probe", probe)
 	vh.Register("c05", "stress", stress)
+	vh.Register("c05", "coldstart", func(args []string) error { return c04.RunCold(args, []string{"pfx", "ext", "ip"}) })
 }
 
 const (
@@ -162,8 +163,16 @@ func check(res *vh.Result, fn, s string, want c04.Res) bool {
 // ------------------------------------------------------------ replay
 
 func replayNames(args []string) error {
-	if len(args) != 2 && len(args) != 3 {
-		return fmt.Errorf("usage: replay-names <vectors> <result> [<stress-units-out>]")
+	if len(args) < 2 || len(args) > 4 {
+		return fmt.Errorf("usage: replay-names <vectors> <result> [<stress-units-out> [<cold-sample-out>]]")
+	}
+	var cold *c04.ColdSampler
+	if len(args) == 4 {
+		var cerr error
+		if cold, cerr = c04.NewColdSampler(args[3]); cerr != nil {
+			return cerr
+		}
+		defer cold.Close()
 	}
 	res, err := vh.NewResult(args[1])
 	if err != nil {
@@ -173,7 +182,7 @@ func replayNames(args []string) error {
 	// with a non-trivial predicted prefix, and mixed-case non-ARPA names.
 	var sample *vh.Trace
 	nAcc, nPlain := 0, 0
-	if len(args) == 3 {
+	if len(args) >= 3 {
 		if sample, err = vh.NewTrace(args[2]); err != nil {
 			return err
 		}
@@ -198,6 +207,9 @@ func replayNames(args []string) error {
 		dom := domainOK(s)
 		if !dom {
 			domBad++
+		}
+		if dom {
+			cold.Offer(v, s, raw)
 		}
 		if sample != nil && v.ASCII && v.Dom && dom && hasUpperASCII(s) {
 			switch {
